@@ -1,4 +1,4 @@
-\* quick tier: slices KubeSingles, OtherSingles, Pairs, Triples, V0, Unnamed of MC_quick.tla; 2+1 objects, <= 3 queued contexts; ~4 k states, ~10 s
+\* quick tier: slices KubeSingles, OtherSingles, Pairs, Triples, V0, Unnamed of MC_quick.tla; 2+1 objects, <= 3 queued contexts; ~6 k states, ~4.3 k cases, ~10 s
 SPECIFICATION Spec
 CONSTANTS
   Slices <- QuickSlices
